@@ -106,7 +106,7 @@ func texts(t reflect.Type, depth int) []string {
 	case reflect.Int:
 		return []string{"1", "2", "null"}
 	case reflect.String:
-		return []string{`"a"`, `"b"`, "null"}
+		return []string{`"a"`, `"b"`, "null", `""`}
 	case reflect.Bool:
 		return []string{"true", "null"}
 	case reflect.Float64:
@@ -320,6 +320,13 @@ func show(v any) string {
 }
 
 func replayCase(cs Case) string {
+	if strings.HasPrefix(cs.Type, "scalar:") {
+		var bi, si, oi int
+		if n, _ := fmt.Sscanf(cs.Type, "scalar:%d:%d:%d", &bi, &si, &oi); n == 3 && bi < len(scalarBases()) && si < len(scalarShapes(scalarBases()[bi])) && oi < len(scalarOptSets) {
+			return scalarOne(bi, si, oi, cs.Chain)
+		}
+		return ""
+	}
 	for _, t := range rootTypes() {
 		if t.String() == cs.Type {
 			return checkChain(t, cs.Chain)
@@ -421,6 +428,7 @@ func Run(r *evid.Run) {
 			w.Beat()
 		}
 	})
+	scalarFamily(r)
 	r.Outcomes(map[string]int64{"chains where every step succeeded (law compared)": lawApplied.Load()})
 	total := 0
 	for _, s := range all {
